@@ -103,3 +103,34 @@ fn c18_vec_znx_round_trip__coeffs4() {
         i += 1;
     }
 }
+
+// ------------------------------------------------------------------------------------------------
+// C17 — trusted interface I-LAYOUT of the Verus units, checked on the real unsafe accessors (ZnxView::at / at_mut / raw):
+// for every well-formed shape in a 64-byte buffer and every (col, limb) in range, the returned slice is exactly the block
+// [8*n*(j*cols+i), +8*n) of the buffer; Kani's pointer checks (out-of-bounds, misaligned, dangling) are on.
+// ------------------------------------------------------------------------------------------------
+#[kani::proof]
+#[kani::unwind(10)]
+#[kani::stub(alloc::fmt::format, fmt_stub)]
+fn c17_vec_znx_accessors_layout() {
+    const BYTES: usize = 64;
+    let (n, cols, size, max_size): (usize, usize, usize, usize) = (kani::any(), kani::any(), kani::any(), kani::any());
+    kani::assume(n >= 1 && n <= 8 && cols >= 1 && cols <= 8 && max_size <= 8 && size <= max_size && n * cols * max_size * 8 <= BYTES);
+    let mut v: VecZnx<Vec<u8>> = VecZnx { data: crate::alloc_aligned::<u8>(BYTES), n, cols, size, max_size };
+    let (i, j): (usize, usize) = (kani::any(), kani::any());
+    kani::assume(i < cols && j < size);
+    let base = v.data.as_ptr() as usize;
+    {
+        let s: &[i64] = v.at(i, j);
+        assert!(s.len() == n, "C17:at() length == n");
+        assert!(s.as_ptr() as usize == base + 8 * n * (j * cols + i), "C17:at() offset == 8*n*(j*cols+i)");
+        assert!(8 * n * (j * cols + i) + 8 * n <= n * cols * size * 8, "C17:block inside the active region");
+    }
+    assert!(v.raw().len() == n * cols * size, "C17:raw() covers exactly the active limbs");
+    let val: i64 = kani::any();
+    let k: usize = kani::any();
+    kani::assume(k < n);
+    v.at_mut(i, j)[k] = val;
+    assert!(v.raw()[n * (j * cols + i) + k] == val, "C17:at_mut writes through to the buffer at the same offset");
+    kani::cover!(i == 1 && j == 1 && n == 2, "C17:reachable");
+}
